@@ -210,6 +210,7 @@ def tie_blocks(c, tier, builds_done=False, max_report=12):
 
 def main(tier):
     c = vlib.Check("BLOCKS_TIE", tier)
+    c.phase_translator(["blocks", "nodes", "feed", "frontmatter", "scanners_re", "strleaf", "entities", "ctype"])
     if os.path.exists(os.path.join(vlib.COQ, "Props", "Blocks.v")):
         c.phase_proofs("Blocks")
     ok, counts = tie_blocks(c, tier)
